@@ -7,6 +7,7 @@ import PjrpcModel.Driver.SuiteAsync
 import PjrpcModel.Driver.SuiteClient
 import PjrpcModel.Driver.SuiteMocker
 import PjrpcModel.Driver.SuiteHttp
+import PjrpcModel.Driver.SuiteHttpLoop
 import PjrpcModel.Driver.SuiteHistory
 import PjrpcModel.Driver.SuiteSpecs
 open Pjrpc.Driver
@@ -24,6 +25,7 @@ def handle (line : String) : String :=
       | "client" => suiteClient c
       | "mocker" => suiteMocker c
       | "http" => suiteHttp c
+      | "httploop" => suiteHttpLoop c
       | "history" => suiteHistory c
       | "specs" => suiteSpecs c
       | s => throw s!"unknown suite {s}"
